@@ -110,6 +110,11 @@ def check_projected_linear(case, ctx):
     boundary = _is_boundary(case, info)
     if case["datadesc"]["data"] == "exact":
         ctx.close(z, tomo.stacked_true(case, info), tol + 1e-9, "projected_linear_exact_recovery")
+    # a linear estimate that is already physical (strictly: equality defect at rounding level, no negative eigenvalue) is
+    # returned as it is - the alternating projection has nothing to do - so here the accuracy is rounding, not sqrt(eps)
+    if rm.eq_defect_stacked(t, x_lin, d, m) <= 1e-14 * (1 + scale) and rm.ineq_defect_stacked(t, x_lin, basis, d, m) == 0.0:
+        ctx.label("linear-estimate-physical")
+        ctx.close(z, x_lin, 1e-12 * (1 + scale), "projection_leaves_physical_linear_estimate_unchanged")
     # var form agrees with the object
     ctx.close(np.asarray(est.estimated_var), np.asarray(q.to_var()), 0.0, "estimated_var_matches_object")
     ctx.nontrivial(case["datadesc"]["data"] != "exact" or boundary)
